@@ -3,7 +3,8 @@ import MesaModel.Proofs.ContExp
 # C18 (continuous spaces) — a rejected placement / move / removal / position assignment changes nothing
 
 Lemmas for the continuous-space part of C18 (assembled with the other subsystems elsewhere).
-Model: `Model/Cont.lean` (legacy `ContinuousSpace` after repair S3, experimental position setter).
+Model: `Model/Cont.lean` (legacy `ContinuousSpace` after repair S3, experimental position setter and `+=`
+after repair CS2).
 A call that raises either returns no new state at all (`Except`: the caller keeps the state it had), or —
 for `move_agent`, which can raise *after* writing — returns the state explicitly; in both cases the lemmas
 show that the state after the call (`lstep` / `estep`: the caller catches the exception and carries on)
@@ -58,9 +59,12 @@ theorem C18_cont_remove_reject_unchanged (s : LSpace) (a : Aid) (e : Err) (h : r
 /-- Experimental `agent.position = value` outside a bounded space: `ValueError` before the array is
     written; it is rejected exactly when the value is out of bounds and the space is not a torus. -/
 theorem C18_cont_setpos_reject_unchanged (s : ESpace) (a : Aid) (p : Pos)
-    (h : setPos s a p = .error .oob) :
+    (h : agentSet s a p = .error .oob) :
     estep s (.set a p) = s ∧ inBounds s.cfg.dims p = false ∧ s.cfg.torus = false := by
   refine ⟨by simp [estep, h], ?_⟩
+  unfold agentSet at h
+  split at h
+  · cases h
   unfold setPos at h
   cases hb : inBounds s.cfg.dims p <;> cases ht : s.cfg.torus
   · exact ⟨rfl, rfl⟩
@@ -70,6 +74,29 @@ theorem C18_cont_setpos_reject_unchanged (s : ESpace) (a : Aid) (p : Pos)
     split at h
     · simp at h
     · split at h <;> simp at h
+
+/-- Experimental `agent.position += v` that would leave a bounded space: the `ValueError` comes from the setter,
+    which is handed the sum computed on a *copy* of the row (repair CS2) — the array has not been written, the
+    agent stays where it was.  It is rejected exactly when position + v is out of bounds on a non-torus. -/
+theorem C18_cont_iadd_reject_unchanged (s : ESpace) (a : Aid) (v : Pos)
+    (h : agentIadd s a v = .error .oob) :
+    estep s (.iadd a v) = s ∧
+    ∃ q, agentGet s a = .ok q ∧ inBounds s.cfg.dims (vadd q v) = false ∧ s.cfg.torus = false := by
+  refine ⟨by simp [estep, h], ?_⟩
+  unfold agentIadd at h
+  cases hq : agentGet s a with
+  | error e =>
+    rw [hq] at h
+    simp only [Except.error.injEq] at h; subst h
+    unfold agentGet getPos at hq
+    split at hq
+    · cases hq
+    · split at hq
+      · cases hq
+      · split at hq <;> cases hq
+  | ok q =>
+    rw [hq] at h
+    exact ⟨q, rfl, (C18_cont_setpos_reject_unchanged s a (vadd q v) h).2⟩
 
 /-- a legacy call that raises at state `s` (for `move_agent`: the out-of-bounds rejection) -/
 def lRejected (s : LSpace) : LOp → Prop
@@ -91,13 +118,26 @@ theorem C18_cont_legacy_rejected_call_erasable (c : LCfg) (pre post : List LOp) 
   simp only [lrun, List.foldl_append, List.foldl_cons] at hs ⊢
   rw [hs]
 
-/-- Corollary over histories (experimental): a rejected position assignment can be deleted from any
-    history without changing the final state. -/
-theorem C18_cont_exp_rejected_call_erasable (c : ECfg) (cap : Nat) (pre post : List EOp) (a : Aid) (p : Pos)
-    (h : ∃ e, setPos (erun c cap pre) a p = .error e) :
-    erun c cap (pre ++ .set a p :: post) = erun c cap (pre ++ post) := by
-  obtain ⟨e, he⟩ := h
-  have hs : estep (erun c cap pre) (.set a p) = erun c cap pre := by simp [estep, he]
+/-- an experimental agent-level call that raises at state `s` (whatever the exception) -/
+def eRejected (s : ESpace) : EOp → Prop
+  | .new _ => False
+  | .set a p => ∃ e, agentSet s a p = .error e
+  | .remove a => ∃ e, agentRemove s a = .error e
+  | .iadd a v => ∃ e, agentIadd s a v = .error e
+  | .raw i p => ∃ e, rawWrite s i p = .error e
+
+/-- Corollary over histories (experimental): a rejected position assignment, a rejected `position += v` and a
+    rejected `remove()` can be deleted from any history without changing the final state. -/
+theorem C18_cont_exp_rejected_call_erasable (c : ECfg) (cap : Nat) (pre post : List EOp) (op : EOp)
+    (h : eRejected (erun c cap pre) op) :
+    erun c cap (pre ++ op :: post) = erun c cap (pre ++ post) := by
+  have hs : estep (erun c cap pre) op = erun c cap pre := by
+    cases op with
+    | new a => exact absurd h (by simp [eRejected])
+    | set a p => obtain ⟨e, he⟩ := h; simp [estep, he]
+    | remove a => obtain ⟨e, he⟩ := h; simp [estep, he]
+    | iadd a v => obtain ⟨e, he⟩ := h; simp [estep, he]
+    | raw i p => obtain ⟨e, he⟩ := h; simp [estep, he]
   simp only [erun, List.foldl_append, List.foldl_cons] at hs ⊢
   rw [hs]
 
@@ -110,7 +150,14 @@ example : lRejected exS (.place 2 (704, 64)) := ⟨.oob, by rfl⟩
 example : (lstep exS (.place 2 (704, 64))).agents = [1] := by decide
 example : (lstep exS (.place 2 (704, 64))).pts = some [(64, 64)] := by decide
 example : (move exS 1 (64, 640)).2 = .error .oob := by rfl
-example : setPos (erun { dims := [(0, 64), (0, 64)], torus := false } 0 [.new 1, .set 1 [1, 1]]) 1 [65, 0] = .error .oob := by
+example : agentSet (erun { dims := [(0, 64), (0, 64)], torus := false } 0 [.new 1, .set 1 [1, 1]]) 1 [65, 0] = .error .oob := by
+  rfl
+/-- the CS2 witness: `position += (64, 0)` from (1, 1) in a 1 x 1 box is rejected and the agent stays at (1, 1) -/
+example : agentIadd (erun { dims := [(0, 64), (0, 64)], torus := false } 0 [.new 1, .set 1 [1, 1]]) 1 [64, 0] = .error .oob := by
+  rfl
+example : agentGet (erun { dims := [(0, 64), (0, 64)], torus := false } 0 [.new 1, .set 1 [1, 1], .iadd 1 [64, 0]]) 1 = .ok [1, 1] := by
+  rfl
+example : agentGet (erun { dims := [(0, 64), (0, 64)], torus := false } 0 [.new 1, .set 1 [1, 1], .iadd 1 [62, 0]]) 1 = .ok [63, 1] := by
   rfl
 end Example
 
